@@ -3,6 +3,7 @@ package processorqueue
 import (
 	clock "lunar/toolkit-core/clock"
 	context_manager "lunar/toolkit-core/context-manager"
+	"lunar/toolkit-core/verifhook"
 	"sync"
 	"sync/atomic"
 	"time"
@@ -103,6 +104,7 @@ func (watcher *RequestWatcher) manageTTLs() {
 		if waitDuration < 0 {
 			waitDuration = 0
 		}
+		waitDuration += verifhook.TimerSlack
 
 		select {
 		case <-time.After(waitDuration):
@@ -142,6 +144,7 @@ func (watcher *RequestWatcher) notifyExpiredRequests() {
 		req, found := watcher.GetRequest(requestID)
 		if found && req.StartProcessing() {
 			watcher.logger.Trace().Msgf("Request %s is expired", requestID)
+			verifhook.Event("queue.expired", requestID)
 			req.SetProcessedTimeout()
 		}
 	}
